@@ -21,6 +21,7 @@
 #include <algorithm>
 #include <memory>
 #include <numeric>
+#include <gmp.h>
 
 using namespace sim;
 using namespace SymEngine;
@@ -131,8 +132,48 @@ const char *FUNCS[] = {"factor",         "factor_trial_division",
                        "mertens",        "is_quad_residue",
                        "is_nth_residue", "nthroot_mod",
                        "nthroot_mod_list", "powermod",
-                       "powermod_list",  "primorial"};
+                       "powermod_list",  "primorial",
+                       // pure functions (no seam of their own): by-catch of
+                       // the same workload, checked against the definitions
+                       "gcd", "lcm", "gcd_ext", "mod", "quotient", "quotient_mod",
+                       "mod_f", "quotient_f", "quotient_mod_f", "mod_inverse",
+                       "crt", "fibonacci", "fibonacci2", "lucas", "lucas2",
+                       "binomial", "factorial", "divides", "bernoulli", "harmonic",
+                       "legendre", "jacobi", "kronecker", "quadratic_residues",
+                       "polygonal_number", "polygonal_root", "perfect_power",
+                       "nextprime", "probab_prime_p",
+                       // large arguments, judged by defining identities
+                       "factor_big", "nthroot_big"};
 const unsigned NFUNCS = sizeof FUNCS / sizeof FUNCS[0];
+const unsigned FIRST_PURE = 22;
+const unsigned N_PURE_PLAIN = 29; // pure functions with the (x, y, z, w) argument scheme
+
+long long pick_value(Rng &g)
+{
+    switch (g.below(7)) {
+        case 0:
+            return g.range(-2, 2);
+        case 1:
+        case 2:
+            return g.range(-40, 40);
+        case 3:
+            return g.range(-100000, 100000);
+        case 4:
+            return g.range(-1000000000000LL, 1000000000000LL);
+        case 5: { // near a power of two / a square / a prime power
+            long long b = 1LL << g.below(40);
+            return (g.chance(1, 2) ? b : -b) + g.range(-1, 1);
+        }
+        default: {
+            long long r = g.range(2, 1000);
+            long long v = r;
+            unsigned e = 1 + (unsigned)g.below(3);
+            for (unsigned i = 0; i < e && v < 1000000000LL; i++)
+                v *= r;
+            return v + (g.chance(1, 4) ? g.range(-1, 1) : 0);
+        }
+    }
+}
 
 u64 pick_modulus(Rng &g)
 {
@@ -149,6 +190,13 @@ u64 pick_modulus(Rng &g)
                                      125, 128, 169, 243, 256, 343, 512, 625,
                                      729, 1024, 2187, 2401, 3125};
             return pp[g.below(sizeof pp / sizeof pp[0])];
+        }
+        case 3: { // prime p = 1 (mod 8), p >= 10000: the Tonelli-Shanks path
+            u64 m;
+            do
+                m = 10001 + 8 * g.below(3000);
+            while (!is_prime64(m));
+            return g.chance(1, 4) ? 2 * m : m;
         }
         case 2: { // 2 * odd prime power, 4 * ...
             static const u64 pp[] = {6, 10, 14, 18, 50, 54, 98, 12, 20, 36, 100,
@@ -184,6 +232,7 @@ Json gen(uint64_t seed, const std::string &tier)
         for (size_t i = 1; i < ow.size(); i++)
             ow[i] *= 3;
     unsigned nops = 8 + (unsigned)g.below(thorough ? 50 : 30);
+    unsigned force_share = (unsigned)g.below(4); // swarm: 0 = no forced GMP draws
     Json ops = Json::array();
     std::vector<size_t> call_idx;
     for (unsigned k = 0; k < nops; k++) {
@@ -200,7 +249,8 @@ Json gen(uint64_t seed, const std::string &tier)
                     o["fn"] = FUNCS[fi];
                     std::string fn = FUNCS[fi];
                     u64 n;
-                    if (fn.compare(0, 6, "factor") == 0 || fn == "prime_factors"
+                    if ((fn.compare(0, 6, "factor") == 0 && fn != "factor_big" && fn != "factorial")
+                        || fn == "prime_factors"
                         || fn == "prime_factor_multiplicities") {
                         switch (g.below(5)) {
                             case 0:
@@ -236,6 +286,75 @@ Json gen(uint64_t seed, const std::string &tier)
                         }
                         o["n"] = (long long)n;
                         o["B"] = (unsigned)(3 + g.below(60));
+                    } else if (fn == "factor_big") {
+                        // n >= 2^64 with a small prime factor q (so that the
+                        // unchanged methods finish at once): n = q * r
+                        u64 q;
+                        do
+                            q = 3 + g.below(3000);
+                        while (!is_prime64(q));
+                        unsigned __int128 r = ((unsigned __int128)1 << 64) / q + 1
+                                              + (unsigned __int128)g.next() % ((unsigned __int128)1 << (58 + g.below(8)));
+                        if (g.chance(1, 3)) // 2^64 + small: a tiny low word
+                            r = (((unsigned __int128)1 << 64) + g.below(5000)) / q + 1;
+                        if (g.chance(1, 2))
+                            r |= 1;
+                        unsigned __int128 n = r * q;
+                        std::string ds;
+                        while (n) {
+                            ds += (char)('0' + (int)(n % 10));
+                            n /= 10;
+                        }
+                        std::reverse(ds.begin(), ds.end());
+                        o["N"] = ds;
+                        o["w"] = (unsigned)g.below(5);
+                        o["B"] = (unsigned)(3 + g.below(60));
+                    } else if (fn == "nthroot_big") {
+                        static const u64 sp[] = {3, 5, 7, 11, 13, 17, 31, 41, 73, 97, 101, 257, 1009,
+                                                 10009, 10177, 40487, 40487, 65537, 104729};
+                        u64 pp = sp[g.below(sizeof sp / sizeof sp[0])];
+                        unsigned k = 1 + (unsigned)g.below(4);
+                        u64 q = pp;
+                        unsigned kk = 1;
+                        while (kk < k && q <= (((u64)1 << 40) / pp)) {
+                            q *= pp;
+                            kk++;
+                        }
+                        o["m"] = (long long)pp;
+                        o["k"] = kk;
+                        // n: product of some prime factors of phi(p^k) and some strangers
+                        u64 n = 1;
+                        std::vector<u64> cand;
+                        for (auto &f : factorise(pp - 1))
+                            cand.push_back(f.first);
+                        if (kk > 1)
+                            cand.push_back(pp);
+                        cand.push_back(2);
+                        cand.push_back(3);
+                        cand.push_back(5);
+                        unsigned cnt = 1 + (unsigned)g.below(3);
+                        for (unsigned i = 0; i < cnt; i++) {
+                            u64 c = cand[g.below(cand.size())];
+                            if (n <= 4000000000ULL / c)
+                                n *= c;
+                        }
+                        if (kk > 1 && g.chance(1, 2)) {
+                            // p | n and gcd(n, p - 1) > 1: lifting and the
+                            // choice of a generator mod p^k both matter
+                            auto fs = factorise(pp - 1);
+                            u64 f = fs[g.below(fs.size())].first;
+                            if (fs.size() > 1 && g.chance(2, 3))
+                                f = fs[1].first; // smallest odd prime factor of p - 1
+                            n = pp * f;
+                        }
+                        o["n"] = (long long)n;
+                        o["a"] = (long long)(g.chance(1, 3) ? 1 : 1 + g.below(q - 1));
+                        o["r"] = (long long)g.below(1000); // a := r-th ... (used to build residues)
+                    } else if (fi >= FIRST_PURE && fi < FIRST_PURE + N_PURE_PLAIN) {
+                        o["x"] = pick_value(g);
+                        o["y"] = pick_value(g);
+                        o["z"] = pick_value(g);
+                        o["w"] = pick_value(g);
                     } else if (fn == "primepi" || fn == "mertens" || fn == "primorial") {
                         // mertens(n) re-sieves n times (one iterator per
                         // mobius call): keep n small
@@ -261,6 +380,27 @@ Json gen(uint64_t seed, const std::string &tier)
                         lists.push(l);
                     }
                     o["seeds"] = lists;
+                    Json force = Json::array();
+                    for (unsigned s = 0; s < nlists; s++) {
+                        Json fz = Json::array();
+                        if (g.below(4) < force_share) {
+                            if (g.chance(1, 2)) {
+                                static const unsigned L[] = {1, 2, 3, 5, 8, 13, 24, 40};
+                                fz.push("prefix");
+                                fz.push(L[g.below(8)]);
+                                fz.push((unsigned)g.below(5));
+                            } else {
+                                fz.push("at");
+                                unsigned cnt = 1 + (unsigned)g.below(3);
+                                for (unsigned i = 0; i < cnt; i++) {
+                                    fz.push((unsigned)g.below(6));
+                                    fz.push((unsigned)g.below(5));
+                                }
+                            }
+                        }
+                        force.push(fz);
+                    }
+                    o["force"] = force;
                     call_idx.push_back(ops.size());
                 }
                 break;
@@ -313,7 +453,673 @@ u64 residue(const Integer &x, u64 m)
 struct Outcome {
     std::string canon;   // canonical result string, must not vary
     std::string error;   // non-empty: the result contradicts the definition
+    bool heavy = false;  // expensive call: not repeated under further seed lists
 };
+
+
+// ---------------------------------------------------------------------------
+// Pure functions: oracles from the definitions, in __int128 / raw GMP
+// arithmetic (mpz_add, mpz_mul, mpq_* only - none of the functions under test)
+std::string s128(i128 v)
+{
+    if (v == 0)
+        return "0";
+    bool neg = v < 0;
+    unsigned __int128 u = neg ? (unsigned __int128)(-(v + 1)) + 1 : (unsigned __int128)v;
+    std::string s;
+    while (u) {
+        s += (char)('0' + (int)(u % 10));
+        u /= 10;
+    }
+    if (neg)
+        s += '-';
+    std::reverse(s.begin(), s.end());
+    return s;
+}
+i128 abs128(i128 v)
+{
+    return v < 0 ? -v : v;
+}
+i128 gcd128(i128 a, i128 b)
+{
+    a = abs128(a);
+    b = abs128(b);
+    while (b) {
+        i128 t = a % b;
+        a = b;
+        b = t;
+    }
+    return a;
+}
+i128 floordiv(i128 a, i128 b)
+{
+    i128 q = a / b, r = a % b;
+    if (r != 0 && ((r < 0) != (b < 0)))
+        q -= 1;
+    return q;
+}
+struct Z { // raw GMP integer
+    mpz_t v;
+    Z()
+    {
+        mpz_init(v);
+    }
+    Z(long x)
+    {
+        mpz_init_set_si(v, x);
+    }
+    Z(const Z &o)
+    {
+        mpz_init_set(v, o.v);
+    }
+    Z &operator=(const Z &o)
+    {
+        mpz_set(v, o.v);
+        return *this;
+    }
+    ~Z()
+    {
+        mpz_clear(v);
+    }
+    std::string str() const
+    {
+        char *c = mpz_get_str(nullptr, 10, v);
+        std::string s = c;
+        free(c);
+        return s;
+    }
+};
+struct Q { // raw GMP rational
+    mpq_t v;
+    Q()
+    {
+        mpq_init(v);
+    }
+    Q(const Q &o)
+    {
+        mpq_init(v);
+        mpq_set(v, o.v);
+    }
+    Q &operator=(const Q &o)
+    {
+        mpq_set(v, o.v);
+        return *this;
+    }
+    ~Q()
+    {
+        mpq_clear(v);
+    }
+    std::string str() const
+    {
+        char *c = mpq_get_str(nullptr, 10, v);
+        std::string s = c;
+        free(c);
+        return s;
+    }
+};
+int legendre_brute(long long a, u64 p) // p odd prime
+{
+    u64 am = (u64)(((a % (long long)p) + (long long)p) % (long long)p);
+    if (am == 0)
+        return 0;
+    for (u64 x = 1; x < p; x++)
+        if (mulmod(x, x, p) == am)
+            return 1;
+    return -1;
+}
+int kronecker_brute(long long a, long long n)
+{
+    if (n == 0)
+        return (a == 1 || a == -1) ? 1 : 0;
+    int r = 1;
+    if (n < 0) {
+        if (a < 0)
+            r = -r;
+        n = -n;
+    }
+    while (n % 2 == 0) {
+        n /= 2;
+        if (a % 2 == 0)
+            return 0;
+        long long m8 = ((a % 8) + 8) % 8;
+        if (m8 == 3 || m8 == 5)
+            r = -r;
+    }
+    for (auto &f : factorise((u64)n)) {
+        int l = legendre_brute(a, f.first);
+        if (l == 0)
+            return 0;
+        if (l < 0 && (f.second & 1))
+            r = -r;
+    }
+    return r;
+}
+
+bool do_pure(const Json &o, Outcome &out)
+{
+    std::string fn = o.gets("fn");
+    long long x = o.geti("x"), y = o.geti("y"), z = o.geti("z"), w = o.geti("w");
+    const long long LIM = 2000000000000LL;
+    auto clamp = [&](long long &v) {
+        if (v > LIM)
+            v = LIM;
+        if (v < -LIM)
+            v = -LIM;
+    };
+    clamp(x);
+    clamp(y);
+    clamp(z);
+    clamp(w);
+    auto I = [](long long v) { return integer(integer_class((long)v)); };
+    auto args2 = [&]() { return "(" + std::to_string(x) + ", " + std::to_string(y) + ")"; };
+    auto expect = [&](const std::string &want) {
+        if (out.canon != want)
+            out.error = fn + " = " + out.canon + ", expected " + want;
+    };
+
+    if (fn == "factor_big") {
+        std::string N = o.gets("N");
+        bool ok = !N.empty() && N.size() <= 26;
+        for (char c : N)
+            if (c < '0' || c > '9')
+                ok = false;
+        if (!ok) {
+            out.canon = "skipped";
+            return true;
+        }
+        Z nn;
+        mpz_set_str(nn.v, N.c_str(), 10);
+        if (mpz_cmp_ui(nn.v, 1000) < 0) {
+            out.canon = "skipped";
+            return true;
+        }
+        // smallest prime factor below 3000, if any (raw GMP)
+        unsigned long small = 0;
+        for (unsigned long q = 2; q < 3100 && !small; q++)
+            if (is_prime64(q) && mpz_divisible_ui_p(nn.v, q))
+                small = q;
+        RCP<const Integer> nI = integer(integer_class(N));
+        RCP<const Integer> f;
+        int which = (int)(w % 5), ret;
+        bool may_fail = false;
+        const char *names[] = {"factor_lehman_method", "factor_pollard_pm1_method",
+                               "factor_pollard_rho_method", "factor", "factor_trial_division"};
+        if (!small && which != 1 && which != 2) { // keep the unchanged tree fast
+            out.canon = "skipped";
+            return true;
+        }
+        fn = std::string(names[which]) + "(" + N + ")";
+        if (which == 0)
+            ret = factor_lehman_method(outArg(f), *nI);
+        else if (which == 1) {
+            ret = factor_pollard_pm1_method(outArg(f), *nI, (unsigned)std::max<int64_t>(3, o.geti("B", 10)));
+            may_fail = true;
+        } else if (which == 2) {
+            ret = factor_pollard_rho_method(outArg(f), *nI);
+            may_fail = true;
+        } else if (which == 3)
+            ret = factor(outArg(f), *nI);
+        else
+            ret = factor_trial_division(outArg(f), *nI);
+        if (ret != 0) {
+            Z fv;
+            bool good = !f.is_null();
+            if (good) {
+                mpz_set_str(fv.v, f->__str__().c_str(), 10);
+                good = mpz_cmp_ui(fv.v, 1) > 0 && mpz_cmp(fv.v, nn.v) < 0 && mpz_divisible_p(nn.v, fv.v);
+            }
+            if (!good)
+                out.error = fn + " reported the factor " + (f.is_null() ? std::string("<null>") : f->__str__())
+                            + ", which is not a non-trivial divisor";
+            else if (which == 4 && mpz_cmp_ui(fv.v, small) != 0)
+                out.error = fn + " returned " + fv.str() + ", not the smallest prime factor " + std::to_string(small);
+            out.canon = may_fail ? "found-or-not" : "1";
+        } else {
+            if (!may_fail && small)
+                out.error = fn + " found no factor although " + std::to_string(small) + " divides it";
+            out.canon = may_fail ? "found-or-not" : "0";
+        }
+        return true;
+    }
+    if (fn == "nthroot_big") {
+        // x^n = a (mod p^k), p odd prime, gcd(a, p) = 1: the solutions form a
+        // coset of the n-torsion of a cyclic group of order phi, so there are
+        // d = gcd(n, phi) of them if a^(phi/d) = 1 and none otherwise
+        u64 pp = (u64)std::max<int64_t>(3, o.geti("m", 3));
+        if (!is_prime64(pp) || pp == 2 || pp > 200000)
+            pp = 10009;
+        unsigned k = (unsigned)std::max<int64_t>(1, o.geti("k", 1));
+        u64 q = pp;
+        for (unsigned i = 1; i < k && q <= (((u64)1 << 40) / pp); i++)
+            q *= pp;
+        u64 phi = q / pp * (pp - 1);
+        u64 n = (u64)std::max<int64_t>(1, o.geti("n", 1));
+        u64 a = (u64)std::max<int64_t>(1, o.geti("a", 1)) % q;
+        if (a % pp == 0)
+            a = 1;
+        if (o.geti("r") % 3 != 2) // make solvable instances frequent
+            a = powmod(a, n, q);
+        u64 d = gcd64(n, phi);
+        if (d > 1400000)
+            n = 2, d = gcd64(n, phi);
+        bool solvable = powmod(a, phi / d, q) == 1;
+        auto I = [](u64 v) { return integer(integer_class((unsigned long)v)); };
+        fn = "(" + std::to_string(a) + ", " + std::to_string(n) + ", " + std::to_string(q) + ")";
+        std::vector<RCP<const Integer>> roots;
+        nthroot_mod_list(roots, I(a), I(n), I(q));
+        std::vector<u64> got;
+        for (auto &r : roots)
+            got.push_back(residue(*r, q));
+        std::sort(got.begin(), got.end());
+        size_t distinct = std::unique(got.begin(), got.end()) - got.begin();
+        out.canon = std::to_string(roots.size()) + " roots";
+        out.heavy = roots.size() > 20000;
+        for (size_t i = 0; i < distinct && out.error.empty(); i++)
+            if (powmod(got[i], n, q) != a)
+                out.error = "nthroot_mod_list" + fn + " contains " + std::to_string(got[i]) + ", which is not a root";
+        if (out.error.empty() && distinct != roots.size())
+            out.error = "nthroot_mod_list" + fn + " lists " + std::to_string(roots.size()) + " roots, only "
+                        + std::to_string(distinct) + " of them distinct";
+        if (out.error.empty() && distinct != (solvable ? d : 0))
+            out.error = "nthroot_mod_list" + fn + " has " + std::to_string(distinct) + " roots, the group structure gives "
+                        + std::to_string(solvable ? d : 0);
+        if (out.error.empty()) {
+            RCP<const Integer> root;
+            bool ok = nthroot_mod(outArg(root), I(a), I(n), I(q));
+            if (ok != solvable)
+                out.error = "nthroot_mod" + fn + " says " + (ok ? "a root exists" : "no root") + ", expected the opposite";
+            else if (ok && powmod(residue(*root, q), n, q) != a)
+                out.error = "nthroot_mod" + fn + " = " + root->__str__() + " is not a root";
+        }
+        if (out.error.empty() && is_nth_residue(*I(a), *I(n), *I(q)) != solvable)
+            out.error = "is_nth_residue" + fn + " disagrees with the group structure";
+        return true;
+    }
+    if (fn == "gcd") {
+        out.canon = gcd(*I(x), *I(y))->__str__();
+        fn += args2();
+        expect(s128(gcd128(x, y)));
+        return true;
+    }
+    if (fn == "lcm") {
+        out.canon = lcm(*I(x), *I(y))->__str__();
+        fn += args2();
+        i128 g = gcd128(x, y);
+        expect(g == 0 ? "0" : s128(abs128((i128)x / g * y)));
+        return true;
+    }
+    if (fn == "gcd_ext") {
+        RCP<const Integer> g, s, t;
+        gcd_ext(outArg(g), outArg(s), outArg(t), *I(x), *I(y));
+        out.canon = g->__str__();
+        fn += args2();
+        expect(s128(gcd128(x, y)));
+        if (out.error.empty()) {
+            // Bezout identity, evaluated with raw GMP
+            Z a(x), b(y), S, T, acc;
+            mpz_set_str(S.v, s->__str__().c_str(), 10);
+            mpz_set_str(T.v, t->__str__().c_str(), 10);
+            mpz_mul(acc.v, a.v, S.v);
+            mpz_addmul(acc.v, b.v, T.v);
+            if (acc.str() != out.canon)
+                out.error = fn + ": s*a + t*b = " + acc.str() + " with s = " + s->__str__()
+                            + ", t = " + t->__str__() + ", but g = " + out.canon;
+        }
+        return true;
+    }
+    if (fn == "mod" || fn == "quotient" || fn == "quotient_mod" || fn == "mod_f"
+        || fn == "quotient_f" || fn == "quotient_mod_f") {
+        if (y == 0)
+            y = 7;
+        bool fl = fn.size() > 2 && fn.compare(fn.size() - 2, 2, "_f") == 0;
+        i128 q = fl ? floordiv(x, y) : (i128)x / y;
+        i128 r = (i128)x - q * y;
+        std::string want;
+        if (fn == "mod")
+            out.canon = mod(*I(x), *I(y))->__str__(), want = s128(r);
+        else if (fn == "mod_f")
+            out.canon = mod_f(*I(x), *I(y))->__str__(), want = s128(r);
+        else if (fn == "quotient")
+            out.canon = quotient(*I(x), *I(y))->__str__(), want = s128(q);
+        else if (fn == "quotient_f")
+            out.canon = quotient_f(*I(x), *I(y))->__str__(), want = s128(q);
+        else {
+            RCP<const Integer> qq, rr;
+            if (fl)
+                quotient_mod_f(outArg(qq), outArg(rr), *I(x), *I(y));
+            else
+                quotient_mod(outArg(qq), outArg(rr), *I(x), *I(y));
+            out.canon = qq->__str__() + " rem " + rr->__str__();
+            want = s128(q) + " rem " + s128(r);
+        }
+        fn += args2();
+        expect(want);
+        return true;
+    }
+    if (fn == "mod_inverse") {
+        long long m = y < 0 ? -y : y;
+        if (m < 2)
+            m += 2;
+        RCP<const Integer> b;
+        int ret = mod_inverse(outArg(b), *I(x), *I(m));
+        bool exists = gcd128(x, m) == 1;
+        fn += "(" + std::to_string(x) + ", " + std::to_string(m) + ")";
+        if ((ret != 0) != exists)
+            out.error = fn + " returned " + std::to_string(ret) + " but gcd is "
+                        + s128(gcd128(x, m));
+        else if (exists) {
+            out.canon = b->__str__();
+            long long bv = (long long)mp_get_si(b->as_integer_class());
+            i128 prod = ((i128)x * bv) % m;
+            if (prod < 0)
+                prod += m;
+            if (bv < 0 || bv >= m || prod != 1 % m)
+                out.error = fn + " = " + out.canon + " is not the inverse in [0, m)";
+        } else
+            out.canon = "none";
+        return true;
+    }
+    if (fn == "crt") {
+        // 2-4 congruences with small moduli (possibly not coprime)
+        long long vals[4] = {x, y, z, w};
+        unsigned cnt = 2 + (unsigned)(((x ^ y) & 0x7fffffff) % 3);
+        std::vector<RCP<const Integer>> rem, mods;
+        std::vector<long long> rv, mv;
+        for (unsigned i = 0; i < cnt; i++) {
+            long long m = 1 + (vals[i] < 0 ? -vals[i] : vals[i]) % 60;
+            long long r = vals[(i + 1) % 4] % 1000;
+            // make most systems consistent: derive the remainders from one number
+            if ((z & 3) != 0)
+                r = ((w % 100000) % m + m) % m + ((i & 1) ? m : 0);
+            rv.push_back(r);
+            mv.push_back(m);
+            rem.push_back(I(r));
+            mods.push_back(I(m));
+        }
+        RCP<const Integer> R;
+        bool ok = crt(outArg(R), rem, mods);
+        i128 L = 1;
+        for (auto m : mv)
+            L = L / gcd128(L, m) * m;
+        long long sol = -1;
+        for (long long c = 0; c < (long long)L && c < 20000000; c++) {
+            bool all = true;
+            for (unsigned i = 0; i < cnt && all; i++)
+                if (((c - rv[i]) % mv[i]) != 0)
+                    all = false;
+            if (all) {
+                sol = c;
+                break;
+            }
+        }
+        fn += "(rem";
+        for (auto r : rv)
+            fn += " " + std::to_string(r);
+        fn += "; mod";
+        for (auto m : mv)
+            fn += " " + std::to_string(m);
+        fn += ")";
+        if (L > 20000000) {
+            out.canon = "skipped";
+            return true;
+        }
+        out.canon = ok ? R->__str__() : "none";
+        expect(sol < 0 ? "none" : std::to_string(sol));
+        return true;
+    }
+    if (fn == "fibonacci" || fn == "fibonacci2" || fn == "lucas" || fn == "lucas2") {
+        unsigned long n = 1 + (unsigned long)((x < 0 ? -x : x) % 400);
+        bool luc = fn[0] == 'l';
+        Z a(luc ? 2 : 0), b(1), t; // a = X(0), b = X(1)
+        for (unsigned long i = 1; i < n; i++) {
+            mpz_add(t.v, a.v, b.v);
+            a = b;
+            b = t;
+        } // b = X(n), a = X(n-1)
+        fn += "(" + std::to_string(n) + ")";
+        if (fn.find('2') == std::string::npos) {
+            out.canon = (luc ? lucas(n) : fibonacci(n))->__str__();
+            expect(b.str());
+        } else {
+            RCP<const Integer> g, s;
+            if (luc)
+                lucas2(outArg(g), outArg(s), n);
+            else
+                fibonacci2(outArg(g), outArg(s), n);
+            out.canon = g->__str__() + " " + s->__str__();
+            expect(b.str() + " " + a.str());
+        }
+        return true;
+    }
+    if (fn == "binomial") {
+        long long n = x % 300;
+        unsigned long k = (unsigned long)((y < 0 ? -y : y) % 60);
+        Z num(1), den(1);
+        for (unsigned long i = 0; i < k; i++) {
+            mpz_mul_si(num.v, num.v, (long)(n - (long long)i));
+            mpz_mul_ui(den.v, den.v, i + 1);
+        }
+        Z q;
+        mpz_divexact(q.v, num.v, den.v); // binomial(n, k) is an integer
+        out.canon = binomial(*I(n), k)->__str__();
+        fn += "(" + std::to_string(n) + ", " + std::to_string(k) + ")";
+        expect(q.str());
+        return true;
+    }
+    if (fn == "factorial") {
+        unsigned long n = (unsigned long)((x < 0 ? -x : x) % 200);
+        Z f(1);
+        for (unsigned long i = 2; i <= n; i++)
+            mpz_mul_ui(f.v, f.v, i);
+        out.canon = factorial(n)->__str__();
+        fn += "(" + std::to_string(n) + ")";
+        expect(f.str());
+        return true;
+    }
+    if (fn == "divides") {
+        if ((z & 1) && y != 0)
+            x = (x / y) * y; // make divisibility frequent
+        bool got = divides(*I(x), *I(y));
+        out.canon = got ? "1" : "0";
+        fn += args2();
+        expect((y == 0 ? x == 0 : x % y == 0) ? "1" : "0");
+        return true;
+    }
+    if (fn == "bernoulli") {
+        unsigned long n = (unsigned long)((x < 0 ? -x : x) % 45);
+        // B_m from sum_{k<=m} C(m+1, k) B_k = 0 (B_1 = -1/2), then the sign
+        // convention of the library (B_1 = +1/2)
+        std::vector<Q> B(n + 1);
+        for (unsigned long m = 0; m <= n; m++) {
+            if (m == 0) {
+                mpq_set_si(B[0].v, 1, 1);
+                continue;
+            }
+            Q acc, term, c;
+            Z bin(1);
+            for (unsigned long k = 0; k < m; k++) {
+                // bin = C(m+1, k)
+                mpq_set_z(c.v, bin.v);
+                mpq_mul(term.v, c.v, B[k].v);
+                mpq_add(acc.v, acc.v, term.v);
+                mpz_mul_ui(bin.v, bin.v, m + 1 - k);
+                mpz_divexact_ui(bin.v, bin.v, k + 1);
+            }
+            Q d;
+            mpq_set_si(d.v, -1, m + 1);
+            mpq_canonicalize(d.v);
+            mpq_mul(B[m].v, acc.v, d.v);
+        }
+        if (n == 1)
+            mpq_neg(B[1].v, B[1].v);
+        out.canon = bernoulli(n)->__str__();
+        fn += "(" + std::to_string(n) + ")";
+        expect(B[n].str());
+        return true;
+    }
+    if (fn == "harmonic") {
+        unsigned long n = (unsigned long)((x < 0 ? -x : x) % 60);
+        long m = (long)(y % 5);
+        if ((z & 3) == 0)
+            m = 1;
+        Q acc;
+        for (unsigned long i = 1; i <= n; i++) {
+            Z pw;
+            mpz_ui_pow_ui(pw.v, i, (unsigned long)(m < 0 ? -m : m));
+            Q t;
+            if (m >= 0) {
+                mpz_set_ui(mpq_numref(t.v), 1);
+                mpz_set(mpq_denref(t.v), pw.v);
+            } else
+                mpq_set_z(t.v, pw.v);
+            mpq_canonicalize(t.v);
+            mpq_add(acc.v, acc.v, t.v);
+        }
+        out.canon = harmonic(n, m)->__str__();
+        fn += "(" + std::to_string(n) + ", " + std::to_string(m) + ")";
+        expect(acc.str());
+        return true;
+    }
+    if (fn == "legendre" || fn == "jacobi" || fn == "kronecker") {
+        long long a = x % 100000, n;
+        if (fn == "legendre") {
+            u64 p = 3 + (u64)((y < 0 ? -y : y) % 3000);
+            while (!is_prime64(p) || p == 2)
+                p++;
+            n = (long long)p;
+            out.canon = std::to_string(legendre(*I(a), *I(n)));
+        } else if (fn == "jacobi") {
+            n = 1 + 2 * ((y < 0 ? -y : y) % 3000);
+            out.canon = std::to_string(jacobi(*I(a), *I(n)));
+        } else {
+            n = y % 6000;
+            out.canon = std::to_string(kronecker(*I(a), *I(n)));
+        }
+        fn += "(" + std::to_string(a) + ", " + std::to_string(n) + ")";
+        expect(std::to_string(kronecker_brute(a, n)));
+        return true;
+    }
+    if (fn == "quadratic_residues") {
+        long long m = 1 + (x < 0 ? -x : x) % 600;
+        std::vector<u64> want, got;
+        for (long long i = 0; i < m; i++)
+            want.push_back((u64)(i * i % m));
+        std::sort(want.begin(), want.end());
+        want.erase(std::unique(want.begin(), want.end()), want.end());
+        for (auto &c : quadratic_residues(*I(m)))
+            got.push_back((u64)mp_get_ui(c));
+        out.canon = vec_str(got);
+        fn += "(" + std::to_string(m) + ")";
+        if (got != want)
+            out.error = fn + " = [" + vec_str(got) + "], expected [" + vec_str(want) + "]";
+        return true;
+    }
+    if (fn == "polygonal_number" || fn == "polygonal_root") {
+        long long s = 3 + (x < 0 ? -x : x) % 40;
+        long long n = 1 + (y < 0 ? -y : y) % 100000;
+        i128 P = ((i128)(s - 2) * n * n - (i128)(s - 4) * n) / 2;
+        if (fn == "polygonal_number") {
+            out.canon = integer(mp_polygonal_number(integer_class((long)s),
+                                                    integer_class((long)n)))
+                            ->__str__();
+            fn += "(" + std::to_string(s) + ", " + std::to_string(n) + ")";
+            expect(s128(P));
+        } else {
+            // largest r with P(s, r) <= X, for X at or between polygonal numbers
+            i128 Pn = ((i128)(s - 2) * (n + 1) * (n + 1) - (i128)(s - 4) * (n + 1)) / 2;
+            i128 off = (z & 1) ? 0 : (i128)((z < 0 ? -z : z)) % (Pn - P);
+            i128 X = P + off;
+            out.canon = integer(mp_principal_polygonal_root(
+                                    integer_class((long)s),
+                                    integer_class((long)(long long)X)))
+                            ->__str__();
+            fn += "(" + std::to_string(s) + ", " + s128(X) + ")";
+            expect(std::to_string(n));
+        }
+        return true;
+    }
+    if (fn == "perfect_power") {
+        long long n = x < 0 ? -x : x;
+        if ((z & 1) == 0) { // make perfect powers frequent
+            long long b = 2 + (y < 0 ? -y : y) % 1000;
+            unsigned e = 2 + (unsigned)((w < 0 ? -w : w) % 6);
+            n = 1;
+            for (unsigned i = 0; i < e && n <= LIM / b; i++)
+                n *= b;
+        }
+        if (n < 1)
+            n = 1;
+        bool lowest = (w & 2) != 0;
+        auto pr = mp_perfect_power_decomposition(integer_class((long)n), lowest);
+        out.canon = integer(pr.first)->__str__() + "^" + integer(pr.second)->__str__();
+        // brute force: all (b, e) with b^e == n, e >= 2
+        long long bb = n, be = 1;
+        for (unsigned e = 2; e < 45; e++) {
+            // integer e-th root by search
+            long long lo = 1, hi = 2000000;
+            if (e == 2)
+                hi = 2000000;
+            while (lo < hi) {
+                long long mid = (lo + hi + 1) / 2;
+                i128 pw = 1;
+                bool over = false;
+                for (unsigned i = 0; i < e; i++) {
+                    pw *= mid;
+                    if (pw > n) {
+                        over = true;
+                        break;
+                    }
+                }
+                if (over)
+                    hi = mid - 1;
+                else
+                    lo = mid;
+            }
+            i128 pw = 1;
+            for (unsigned i = 0; i < e; i++)
+                pw *= lo;
+            if (pw == n && lo >= 2) {
+                if (be == 1 || !lowest) {
+                    bb = lo;
+                    be = e;
+                }
+                if (lowest)
+                    break;
+            }
+        }
+        fn += "(" + std::to_string(n) + (lowest ? ", lowest)" : ", highest)");
+        expect(std::to_string(bb) + "^" + std::to_string(be));
+        return true;
+    }
+    if (fn == "nextprime") {
+        long long a = x % 3000000;
+        out.canon = nextprime(*I(a))->__str__();
+        u64 p = a < 2 ? 2 : (u64)a + 1;
+        while (!is_prime64(p))
+            p++;
+        fn += "(" + std::to_string(a) + ")";
+        expect(std::to_string(p));
+        return true;
+    }
+    if (fn == "probab_prime_p") {
+        long long a = (x < 0 ? -x : x) % 100000000;
+        if (z & 1) { // Carmichael numbers and squares of primes
+            static const long long hard[] = {561, 1105, 1729, 2465, 2821, 6601, 8911, 10585,
+                                             15841, 29341, 41041, 46657, 52633, 62745, 63973,
+                                             75361, 101101, 115921, 126217, 162401, 172081,
+                                             188461, 252601, 294409, 340561, 399001, 410041,
+                                             449065, 488881, 512461, 9, 25, 49, 121, 169, 289,
+                                             3215031751LL, 2147483647LL, 4294967291LL};
+            a = hard[(a % (long long)(sizeof hard / sizeof hard[0]))];
+        }
+        int r = probab_prime_p(*I(a));
+        out.canon = r ? "prime" : "composite";
+        fn += "(" + std::to_string(a) + ")";
+        expect(is_prime64((u64)a) ? "prime" : "composite");
+        return true;
+    }
+    return false;
+}
 
 // one call under the current sieve state and rand seed list
 Outcome do_call(const Json &o, Run &run)
@@ -324,7 +1130,7 @@ Outcome do_call(const Json &o, Run &run)
     u64 m = (u64)std::max<int64_t>(2, o.geti("m", 7));
     u64 a = (u64)std::max<int64_t>(0, o.geti("a", 0));
     auto I = [](u64 v) { return integer(integer_class((unsigned long)v)); };
-    if (fn.compare(0, 6, "factor") == 0) {
+    if (fn.compare(0, 6, "factor") == 0 && fn != "factor_big" && fn != "factorial") {
         RCP<const Integer> f;
         int ret;
         bool may_fail = false;
@@ -626,6 +1432,8 @@ Outcome do_call(const Json &o, Run &run)
         }
         return out;
     }
+    if (do_pure(o, out))
+        return out;
     out.canon = "unknown-fn";
     return out;
 }
@@ -634,7 +1442,10 @@ std::string call_key(const Json &o)
 {
     return o.gets("fn") + "|" + std::to_string(o.geti("n")) + "|"
            + std::to_string(o.geti("m")) + "|" + std::to_string(o.geti("a")) + "|"
-           + std::to_string(o.geti("r")) + "|" + std::to_string(o.geti("B"));
+           + std::to_string(o.geti("r")) + "|" + std::to_string(o.geti("B")) + "|"
+           + std::to_string(o.geti("x")) + "|" + std::to_string(o.geti("y")) + "|"
+           + std::to_string(o.geti("z")) + "|" + std::to_string(o.geti("w")) + "|"
+           + o.gets("N") + "|" + std::to_string(o.geti("k"));
 }
 
 void exec(Run &run)
@@ -708,6 +1519,17 @@ void exec(Run &run)
                     for (size_t i = 0; i < lists[s].size(); i++)
                         list.push_back((int)lists[s][i].as_int());
                 simrand::set(list, 5000);
+                if (s < lists.size() && s < o.at("force").size()) {
+                    const Json &fz = o.at("force")[s];
+                    if (fz.size() >= 3 && fz[0].s == "prefix") {
+                        uint64_t L = (uint64_t)std::min<int64_t>(100, fz[1].as_int());
+                        for (uint64_t i = 0; i < L; i++)
+                            simrand::force(i, (int)(fz[2].as_int() % 5));
+                    } else if (fz.size() >= 3 && fz[0].s == "at") {
+                        for (size_t i = 1; i + 1 < fz.size(); i += 2)
+                            simrand::force((uint64_t)(fz[i].as_int() % 100), (int)(fz[i + 1].as_int() % 5));
+                    }
+                }
                 Outcome r;
                 try {
                     r = do_call(o, run);
@@ -720,6 +1542,8 @@ void exec(Run &run)
                 }
                 if (simrand::state().draws)
                     run.probe("random_numbers_drawn");
+                if (simrand::state().forced_fired)
+                    run.counters["fault.gmp_draw_forced"] += simrand::state().forced_fired;
                 run.count("rand_draws", simrand::state().draws);
                 run.fault("seed_list_replayed");
                 if (s == 0)
@@ -742,6 +1566,8 @@ void exec(Run &run)
                     break;
                 }
                 judged++;
+                if (r.heavy)
+                    break;
             }
             if (o.at("repeat").as_bool())
                 run.probe("same_call_under_other_sieve_state");
